@@ -10,9 +10,11 @@ META = {
                  "width guards) + extracted bit-exact Flocq model vs C++ differential correspondence with exact-rational spec oracle",
     "text": "Theorems in coq/Properties_C17.v: the tolerant comparisons of the Flocq model (one correctly rounded operation per C++ "
             "operation, any precision/exponent range) are symmetric, ne = !eq, exactly one of lt/eq/gt, le = lt||eq, ge = gt||eq, "
-            "vector eq = conjunction, for all finite arguments and finite eps >= 0, all three styles; power/factorial/binomial of "
-            "the machine-integer model return the exact value under explicit representability guards (binomial: refuted without the "
-            "guard on n!/(n-k)!); classifiers are any/all.  The model is tied to float_cmp.cc / math.hh / fvector.hh on every run by "
+            "vector eq = conjunction, for all finite arguments and finite eps >= 0, all three styles; power/factorial of "
+            "the machine-integer model return the exact value under explicit representability guards; binomial as found is refuted "
+            "(intermediate n!/(n-k)! overflows), binomial after fixes/C17-1.patch returns C(n,k) whenever it is representable "
+            "(C17_binomial_exact); trunc/round after fixes/C17-2/3.patch return the documented integer for every format, finite val, "
+            "finite eps >= 0 (C17_trunc_round, over Flocq); classifiers are any/all.  The model is tied to float_cmp.cc / math.hh / fvector.hh on every run by "
             "running the extracted model and the C++ templates (float, double; int32/uint32/int64/uint64) on identical "
             "boundary-directed bit patterns and comparing bit-exactly, and by judging the C++ output with the exact-rational oracle.",
     "note": "Trusted: Coq kernel, Flocq, extraction, OCaml driver, C++ harness, g++ on x86-64 SSE2 (one rounding per operation, no FMA "
@@ -349,7 +351,7 @@ def run_model(ctx, model, cases, impl_lines, tag="model"):
             lines = []
         if lines and lines[-1] == "":
             lines.pop()
-        lines = lines[:n] + ["MODEL-ERROR no output | -"] * (n - len(lines))
+        lines = lines[:n] + ["MODEL-ERROR no output | - | ="] * (n - len(lines))
         return lines
     out = []
     with ThreadPoolExecutor(max_workers=V.NCPU) as ex:
@@ -357,17 +359,20 @@ def run_model(ctx, model, cases, impl_lines, tag="model"):
             out.extend(lines)
     res = []
     for l in out:
-        m, _, o = l.partition(" | ")
-        res.append((m, o))
+        parts = l.split(" | ")
+        m, o = parts[0], (parts[1] if len(parts) > 1 else "-")
+        af = parts[2] if len(parts) > 2 else "="
+        res.append((m, o, m if af == "=" else af))      # (fixed-code model, oracle verdict, as-found model)
     return res
 
 
-def sig_of(case, model_obs, impl_obs=None):
+def sig_of(case, asfound_obs, impl_obs=None):
+    """signature of a violation; asfound_obs = observation of the as-found model (before fixes/C17-*.patch)"""
     t = case.split()
     op = t[0]
     if op in ("binom", "ipow", "fact"):
         name = {"binom": "binomial", "ipow": "power", "fact": "factorial"}[op]
-        return "C17:%s:%s" % (name, "intermediate-overflow" if model_obs == "UB" or model_obs == impl_obs else "value")
+        return "C17:%s:%s" % (name, "intermediate-overflow" if asfound_obs == "UB" or asfound_obs == impl_obs else "value")
     if op == "cmp":
         return "C17:cmp:%s" % {"w": "relativeWeak", "s": "relativeStrong", "a": "absolute"}[t[2]]
     if op == "vcmp":
@@ -382,6 +387,10 @@ def sig_of(case, model_obs, impl_obs=None):
             extra = ":unsigned-negative"          # `lower--` wraps below 0
         elif t[2][0] == "u" and f.isfin(v) and f.frac(v) >= (1 << ITYPES[t[2]][1]) - 1:
             extra = ":unsigned-top"               # `lower+1` wraps above the maximum
+        elif t[2][0] == "i" and f.isfin(v) and f.frac(v) >= (1 << (ITYPES[t[2]][1] - 1)) - 1:
+            extra = ":signed-top"                 # `lower+1` overflows above the maximum
+        elif t[2][0] == "i" and f.isfin(v) and f.frac(v) < -(1 << (ITYPES[t[2]][1] - 1)):
+            extra = ":signed-bottom"              # `lower--` overflows below the minimum
         return "C17:%s:%s%s" % (op, {"z": "towardZero", "i": "towardInf", "d": "downward", "u": "upward"}[t[4]], extra)
     return "C17:%s" % op
 
@@ -414,24 +423,31 @@ def judge(ctx, cases, tags, io, mo, report=True):
     """Compare impl with model, apply the oracle.  Returns counters."""
     nviol = ndis = nub = 0
     persig = {}
-    for c, tg, a, (m, o) in zip(cases, tags, io, mo):
+    for c, tg, a, (m, o, af) in zip(cases, tags, io, mo):
         if m.startswith("MODEL-ERROR") or m == "OUTOFFUEL" or m == "UNKNOWN-OP":
             ctx.violation("corr:C17/model-error", {"broken": "corr:C17/model", "case": c, "model": m, "impl": a}, found_input=False)
             continue
         if o.startswith("BAD"):
             nviol += 1
-            sg = sig_of(c, m, a)
+            sg = sig_of(c, af, a)
             persig[sg] = persig.get(sg, 0) + 1
             if persig[sg] <= 4 and report:
-                ctx.violation(sg, {"case": c, "decoded": describe(c), "impl": a, "model": m, "oracle": o[4:],
-                                            "replay_cmd": "bin/check C17 --replay <this file>"})
+                ctx.violation(sg, {"case": c, "decoded": describe(c), "impl": a, "model": m, "model_as_found": af, "oracle": o[4:],
+                                   "replay_cmd": "bin/check C17 --replay <this file>"})
             continue
         if m == "UB":
             nub += 1
             continue
         if a != m:
             ndis += 1
-            if ndis <= 50 and report:
+            if af != m and (a == af or af == "UB"):
+                # the oracle accepts the output, the impl behaves like the code before fixes/C17-*.patch
+                sg = sig_of(c, af, a) + ":as-found"
+                persig[sg] = persig.get(sg, 0) + 1
+                if persig[sg] <= 4 and report:
+                    ctx.violation(sg, {"broken": "corr:C17/%s (tree without the fix)" % c.split()[0], "case": c, "decoded": describe(c),
+                                       "impl": a, "model": m, "model_as_found": af, "oracle": "accepts impl output (%s)" % o}, found_input=False)
+            elif ndis <= 50 and report:
                 ctx.violation("corr:C17/%s" % c.split()[0], {"broken": "corr:C17/%s" % c.split()[0], "case": c, "decoded": describe(c),
                                                            "impl": a, "model": m, "oracle": "accepts impl output (%s)" % o}, found_input=False)
     ctx.coverage["oracle_rejections_by_signature"] = persig
@@ -449,26 +465,35 @@ def run(ctx):
     ctx.log("model+oracle done")
     nviol, ndis, nub = judge(ctx, cases, tags, io, mo)
     # sanitizer build: every case the model calls defined must run without UBSan/ASan report and give the same line
-    idx = [i for i, (m, o) in enumerate(mo) if m != "UB" and not m.startswith("MODEL-ERROR")]
+    idx = [i for i, (m, o, af) in enumerate(mo) if m != "UB" and af != "UB" and not m.startswith("MODEL-ERROR")]
     idx = idx[::(5 if ctx.quick else 2)]
+    # cases that were undefined behaviour before fixes/C17-*.patch and are defined after: a few per op only
+    # (on a tree without the fix each of them aborts the sanitizer build; run_cases tolerates 12 restarts)
+    seen_op = {}
+    for i, (m, o, af) in enumerate(mo):
+        if af == "UB" and m != "UB":
+            k = cases[i].split()[0]
+            seen_op[k] = seen_op.get(k, 0) + 1
+            if seen_op[k] <= 3:
+                idx.append(i)
     so = V.run_cases(ctx, [impl_san], [cases[i] for i in idx], tag="san", timeout=300 if ctx.quick else 1200)
     nsan = 0
     for j, i in enumerate(idx):
         if j < len(so) and so[j] != io[i]:
             nsan += 1
             if nsan <= 20:
-                ctx.violation(sig_of(cases[i], mo[i][0], io[i]) + ":sanitizer",
+                ctx.violation(sig_of(cases[i], mo[i][2], io[i]) + (":as-found" if mo[i][2] == "UB" else "") + ":sanitizer",
                               {"case": cases[i], "decoded": describe(cases[i]), "impl": io[i], "impl_sanitized_build": so[j], "model": mo[i][0],
                                "oracle": "the model calls this case defined, but the ASan/UBSan build aborts or answers differently"})
     dist = {}
     for tg in tags:
         dist[tg] = dist.get(tg, 0) + 1
     verdicts = {}
-    for (m, o) in mo:
+    for (m, o, af) in mo:
         k = o.split(" ")[0] if not o.startswith("BAD") else "BAD"
         verdicts[k] = verdicts.get(k, 0) + 1
-    eqtrue = sum(1 for c, (m, o) in zip(cases, mo) if c.startswith("cmp ") and m[:1] == "1")
-    eqfalse = sum(1 for c, (m, o) in zip(cases, mo) if c.startswith("cmp ") and m[:1] == "0")
+    eqtrue = sum(1 for c, (m, o, af) in zip(cases, mo) if c.startswith("cmp ") and m[:1] == "1")
+    eqfalse = sum(1 for c, (m, o, af) in zip(cases, mo) if c.startswith("cmp ") and m[:1] == "0")
     distinct = len(set(c for c, tg in zip(cases, tags) if not tg.startswith("cls") and any(re.search(r"[1-9a-f]", x) for x in c.split()[3:])))
     ctx.coverage.update({
         "evaluations": len(cases), "distinct_nontrivial": distinct,
@@ -485,10 +510,12 @@ def run(ctx):
         "sanitizer_cases": len(idx), "sanitizer_disagreements": nsan, "exhaustive": False,
         "traces_validated_against_impl": len(cases) - nub,
     })
-    ctx.assumptions += ["library axioms of the Flocq/Reals-based theorems (C17_cmp_algebra, C17_veq_conjunction, C17_eq_absolute_real_partial), as printed by "
+    ctx.assumptions += ["library axioms of the Flocq/Reals-based theorems (C17_cmp_algebra, C17_veq_conjunction, C17_eq_absolute_real_partial, C17_trunc_round, C17_trunc_plain, C17_round_plain), as printed by "
                         "Print Assumptions: ClassicalDedekindReals.sig_not_dec, ClassicalDedekindReals.sig_forall_dec, "
                         "FunctionalExtensionality.functional_extensionality_dep, Classical_Prop.classic; all other C17 theorems are closed under the global context",
-                        "round/trunc: no Coq theorem (statement kept in Properties_C17.v as a comment); tied by bit-exact differential check + exact dyadic oracle only",
+                        "the model that is compared with the implementation is the code AFTER fixes/C17-1..3.patch (c17_binomial_fix, c17_round_fix, c17_trunc_fix: "
+                        "C17_binomial_exact, C17_trunc_round); a tree without a fix is recognised through the as-found model (third output field of the driver) and "
+                        "reported under the known-finding entry; std::gcd is modelled by Z.gcd",
                         "x86-64 SSE2 arithmetic: each C++ floating operation is one IEEE round-to-nearest-even operation (no x87 excess precision, no FMA contraction)",
                         "operands are transported as bit patterns (memcpy), results of comparisons as booleans",
                         "long double (x87 80 bit) is not instantiated in the harness; covered by the format-generic theorems only",
@@ -502,5 +529,5 @@ def replay(ctx, path):
     io = V.run_cases(ctx, [impl], [case], tag="rimpl", timeout=60)
     mo = run_model(ctx, model, [case], io, tag="rmodel")
     print("case   :", case); print("decoded:", describe(case))
-    print("impl   :", io[0]); print("model  :", mo[0][0]); print("oracle :", mo[0][1])
+    print("impl   :", io[0]); print("model  :", mo[0][0], "(as found: %s)" % mo[0][2]); print("oracle :", mo[0][1])
     return 1 if mo[0][1].startswith("BAD") else 0
